@@ -23,6 +23,35 @@ pub fn enc_text(s: &str) -> String {
         .join(",")
 }
 
+/// what the interpreter gets from `read_line` (through `hyeong::util::io::read_line_from`) for a byte stream:
+/// the lines as text, `!` for the first line that is not UTF-8 (the run ends there)
+pub fn declines_op(hex: &str) -> String {
+    struct R(std::io::Cursor<Vec<u8>>);
+    impl hyeong::util::io::ReadLine for R {
+        fn read_line_(&mut self) -> Result<String, hyeong::util::error::Error> {
+            use std::io::BufRead;
+            let mut s = String::new();
+            self.0.read_line(&mut s)?;
+            Ok(s)
+        }
+    }
+    let bytes: Vec<u8> = if hex == "-" { vec![] } else {
+        (0..hex.len() / 2).map(|i| u8::from_str_radix(&hex[2 * i..2 * i + 2], 16).unwrap()).collect()
+    };
+    let mut r = R(std::io::Cursor::new(bytes));
+    let mut out: Vec<String> = Vec::new();
+    loop {
+        match hyeong::util::io::read_line_from(&mut r) {
+            Ok(s) => {
+                if s.is_empty() { break; }
+                out.push(enc_text(&s));
+            }
+            Err(_) => { out.push("!".to_string()); break; }
+        }
+    }
+    if out.is_empty() { "-".to_string() } else { out.join("|") }
+}
+
 pub fn enc_bytes_lossy(b: &[u8]) -> String {
     match std::str::from_utf8(b) {
         Ok(s) => enc_text(s),
